@@ -83,8 +83,8 @@ SENT_IMPORT = "PWNED_IMPORT"   # written by sentinel_mod.py when it is imported
 SENT_FILES = (SENT_FILE, SENT_ABS, SENT_IMPORT, "PWNEDw", "Sw")
 SENT_ENV = "CDDSIM_C17_SENTINEL"
 SENT_MOD = "c17_sentinel"      # harness module in sys.modules; payloads set .touched
-PAYLOAD_MODULES = ("antigravity", "this", "sentinel_mod")
-MARKERS = ("PWNED", SENT_ENV, SENT_MOD, "antigravity", "sentinel_mod")
+PAYLOAD_MODULES = ("antigravity", "this", "sentinel_mod", "sentpkg", "sentpkg.sub")
+MARKERS = ("PWNED", SENT_ENV, SENT_MOD, "antigravity", "sentinel_mod", "sentpkg")
 SENTINEL_MOD_SRC = ("# imported only if some analysed text was executed\n"
                     "open(__file__[:-len('sentinel_mod.py')] + 'PWNED_IMPORT', 'w').write('imported')\n")
 
@@ -131,13 +131,13 @@ NAMES = ("sys.exit", "ast.literal_eval", "cdd", "sys.modules", "open", "exec", "
          "cdd.shared.ast_utils", "().__class__", "sys.__dict__", "print", "deepcopy", "exit",
          # dotted names whose first component is an importable payload module that is NOT a global of the evaluating
          # module: a 'helpful' import to resolve them would execute that module
-         "this.s", "antigravity.fly", "sentinel_mod.Thing", "this.d")
+         "this.s", "antigravity.fly", "sentinel_mod.Thing", "this.d", "sentpkg.sub.Thing", "sentpkg.sub.other.Thing")
 # payloads spelt only with characters that survive (or would survive a widened) word-character filter of
 # parse_adhoc_doc_for_typ: letters, digits, quotes, '/', '|', '.', '(', ')'
 WORDY = ("open('PWNED', 'w')", "sys.exit()", "exit()", "open('PWNED','w')", "print('PWNED')", "eval('1')",
          "exec('1')", "sys.stderr.write('PWNED')", "open('PWNED', 'w').close()", "quit()", "sys.exit",
          "ast.literal_eval", "cdd", "sys.stdout.flush()", "collections.OrderedDict()", "open('PWNED'/'w')",
-         "print('PWNED')|exit()", "this.s", "antigravity.fly", "this.d")
+         "print('PWNED')|exit()", "this.s", "antigravity.fly", "this.d", "sentpkg.sub.Thing")
 BENIGN_TYPES = ("int", "str", "bool", "float", "Optional[int]", "Optional[str]", "List[str]", "Literal['a', 'b']")
 TYPE_POOL = BENIGN_TYPES + CALLS[:8] + (
     "Union[sys.exit, ast.literal_eval]", "cdd", "List[open('PWNED', 'w')]", "Optional[__import__('antigravity')]",
@@ -579,6 +579,10 @@ def render_files(spec):
         # gen joins them without a separator)
         "imp.py": "import antigravity\n",
         "sentinel_mod.py": SENTINEL_MOD_SRC,
+        # an importable PACKAGE in the project directory (no underscore in its name: the type guesser strips them);
+        # resolving `sentpkg.sub.Thing` by any import-based means executes its __init__
+        "sentpkg/__init__.py": "open(__file__[:-len('sentpkg/__init__.py')] + 'PWNED_IMPORT', 'w').write('imported')\n",
+        "sentpkg/sub.py": "open(__file__[:-len('sentpkg/sub.py')] + 'PWNED_IMPORT', 'w').write('imported')\nThing = 1\n",
     }
     return files
 
@@ -932,7 +936,7 @@ def warm_up():
                                 for p in (pureops.SOURCE_PARSERS if what == "parse_emit" else ("function",))]
                 for pop in variants:
                     po = build_pure(pop, WARM_SPEC, w)
-                    ops.invoke(w, {"cmd": "pure"}, call=lambda po=po: pureops.run(po), monitor=True, trace=True)
+                    ops.invoke(w, {"cmd": "pure"}, call=lambda po=po: pureops.run(po), monitor=True, trace=True, cwd_on_path=True)
         i = 0
         for cmd in ([{"k": "doctrans", "format": f, "type_annotations": t} for f in STYLES for t in (True, False)]
                     + [{"k": "gen", "parse": p, "emit": e, "extra": x} for p in GEN_PARSE for e in GEN_EMIT
@@ -946,7 +950,7 @@ def warm_up():
             iop, outs, ex, rm = build_cmd(cmd, WARM_SPEC, i)
             for r in rm:
                 w.remove(r)
-            ops.invoke(w, iop, monitor=True, trace=True)
+            ops.invoke(w, iop, monitor=True, trace=True, cwd_on_path=True)
             w.write_files({k: concrete(t, w) for k, t in render_files(WARM_SPEC).items()})
         reset_sentinels(w)
     finally:
@@ -1069,7 +1073,7 @@ def simulate(plan):
                 # the step seam (sys.settrace) is on only where it is needed: in the rehearsal of a line fault (to
                 # learn the extent) and in the run that carries the line fault
                 traced = len(runs) > 1 and fi == 0 and f["seam"] == "line"
-                o = ops.invoke(world, iop, call=call, monitor=True, trace=traced, faults=[flt] if flt else None,
+                o = ops.invoke(world, iop, call=call, monitor=True, trace=traced, faults=[flt] if flt else None, cwd_on_path=True,
                                budget=STEP_BUDGET if traced else None, wall_s=60)
                 if fi == 0:
                     reh = o
